@@ -29,6 +29,8 @@ pub struct MutexGuard<'a, T: ?Sized> {
 }
 pub struct ArcMutexGuard<T: ?Sized> {
     m: ManuallyDrop<Arc<Mutex<T>>>,
+    /// set where `T: 'static` is known (Drop cannot add that bound)
+    weak_unlock: Option<fn(&mut ArcMutexGuard<T>)>,
 }
 unsafe impl<T: ?Sized + Send> Send for ArcMutexGuard<T> {}
 unsafe impl<T: ?Sized + Send> Send for MutexGuard<'_, T> {}
@@ -54,6 +56,10 @@ impl<T: Default> Default for Mutex<T> {
 }
 impl<T: ?Sized> Mutex<T> {
     fn grab(&self) -> bool {
+        if sim::has_pending_action() {
+            // a thread observes its own earlier unlock
+            sim::flush_mine();
+        }
         if self.locked.get() {
             false
         } else {
@@ -70,7 +76,11 @@ impl<T: ?Sized> Mutex<T> {
             return;
         }
         sim::sched_point(Site::Name("mutex.unlock"));
-        *self.clock.borrow_mut() = hb::release_token();
+        let tok = hb::release_token();
+        self.do_release(tok);
+    }
+    fn do_release(&self, tok: Vec<u32>) {
+        *self.clock.borrow_mut() = tok;
         self.locked.set(false);
         let ws: Vec<Thread> = self.waiters.borrow_mut().drain(..).collect();
         for t in ws {
@@ -87,7 +97,7 @@ impl<T: ?Sized> Mutex<T> {
                 panic!("simulated mutex contended outside a simulation");
             }
             self.waiters.borrow_mut().push(shuttle::thread::current());
-            shuttle::thread::park();
+            sim::park();
         }
     }
     fn acquire_for(&self, d: Duration) -> bool {
@@ -121,7 +131,7 @@ impl<T: ?Sized> Mutex<T> {
                 sim::fault("F4.tick_timeout");
                 return false;
             }
-            shuttle::thread::park();
+            sim::park();
         }
     }
     fn forget_waiter(&self) {
@@ -148,16 +158,18 @@ impl<T: ?Sized> Mutex<T> {
     pub fn get_mut(&mut self) -> &mut T {
         self.data.get_mut()
     }
+}
+impl<T: ?Sized + 'static> Mutex<T> {
     pub fn try_lock_arc(self: &Arc<Self>) -> Option<ArcMutexGuard<T>> {
         sim::sched_point(Site::Name("mutex.try_lock"));
-        self.grab().then(|| ArcMutexGuard { m: ManuallyDrop::new(self.clone()) })
+        self.grab().then(|| ArcMutexGuard::make(self.clone()))
     }
     pub fn lock_arc(self: &Arc<Self>) -> ArcMutexGuard<T> {
         self.acquire();
-        ArcMutexGuard { m: ManuallyDrop::new(self.clone()) }
+        ArcMutexGuard::make(self.clone())
     }
     pub fn try_lock_arc_for(self: &Arc<Self>, d: Duration) -> Option<ArcMutexGuard<T>> {
-        self.acquire_for(d).then(|| ArcMutexGuard { m: ManuallyDrop::new(self.clone()) })
+        self.acquire_for(d).then(|| ArcMutexGuard::make(self.clone()))
     }
 }
 impl<T: ?Sized> Deref for MutexGuard<'_, T> {
@@ -181,6 +193,11 @@ impl<T: ?Sized> ArcMutexGuard<T> {
         &s.m
     }
 }
+impl<T: ?Sized + 'static> ArcMutexGuard<T> {
+    fn make(m: Arc<Mutex<T>>) -> Self {
+        ArcMutexGuard { m: ManuallyDrop::new(m), weak_unlock: Some(Self::buffered_unlock) }
+    }
+}
 impl<T: ?Sized> Deref for ArcMutexGuard<T> {
     type Target = T;
     fn deref(&self) -> &T {
@@ -192,9 +209,31 @@ impl<T: ?Sized> DerefMut for ArcMutexGuard<T> {
         unsafe { &mut *self.m.data.get() }
     }
 }
+impl<T: ?Sized + 'static> ArcMutexGuard<T> {
+    /// weak-memory mode: the unlock is a release store like any other and may stay in the
+    /// thread's store buffer for a while (later loads of the thread can pass it). The buffered
+    /// action owns the Arc, so the mutex outlives it.
+    fn buffered_unlock(&mut self) {
+        sim::sched_point(Site::Name("mutex.unlock"));
+        let tok = hb::release_token_buffered();
+        let m: Arc<Mutex<T>> = unsafe { ManuallyDrop::take(&mut self.m) };
+        struct SendBox<X: ?Sized>(Arc<Mutex<X>>);
+        let m = SendBox(m);
+        sim::buffer_action(Box::new(move || {
+            let m = m;
+            m.0.do_release(tok);
+        }));
+    }
+}
 impl<T: ?Sized> Drop for ArcMutexGuard<T> {
     fn drop(&mut self) {
         // like parking_lot: unlock first, then drop the Arc (possibly the last reference)
+        if sim::weak() && !std::thread::panicking() {
+            if let Some(f) = self.weak_unlock {
+                f(self);
+                return;
+            }
+        }
         self.m.release();
         sim::sched_point(Site::Name("mutex.guard_arc_drop"));
         // (sched_point is a no-op while unwinding)
